@@ -48,6 +48,8 @@ type vAbScript struct {
 	nScript int // global packet indices nSample .. nSample+nScript-1 are scripted
 	ticks   [][]int
 	rescale bool
+	unwrap  bool // phase unwrapping on (with rescaling); such scripts lose no packet
+	uopts   AbacoUnwrapOptions
 	lowbits bool // 32-bit payloads carry non-zero low 16 bits (non-negative values only)
 }
 
@@ -79,8 +81,8 @@ type vAbRun struct {
 	stopDelay time.Duration
 	drain     bool // no more packets: every read returns empty (quiescence)
 	drained   bool // the run ended with at least 6 empty ticks
-	extEvery  int // producer 0 adds an external-trigger packet to every extEvery-th read (0 = never)
-	extSent   int // external-trigger entries handed to the reader
+	extEvery  int  // producer 0 adds an external-trigger packet to every extEvery-th read (0 = never)
+	extSent   int  // external-trigger entries handed to the reader
 	extSeq    int
 }
 
@@ -437,6 +439,19 @@ func vGenAbScript(c *vCase) *vAbScript {
 		}
 		s.ticks = append(s.ticks, row)
 	}
+	if c.Idx%6 == 4 || vAbForceUnwrap {
+		// phase unwrapping through the device path (C12's callers): rescaling and unwrapping on, no packet lost (a filler's value
+		// is not defined, and the unwrapper's state would depend on it)
+		s.unwrap, s.rescale = true, true
+		s.uopts = AbacoUnwrapOptions{RescaleRaw: true, Unwrap: true, Bias: vChance(r, 0.5), PulseSign: vPick(r, 1, -1), ResetAfter: vPick(r, 20, 200, 20000)}
+		if vChance(r, 0.5) {
+			g := s.groups[r.Intn(len(s.groups))]
+			s.uopts.InvertChan = []int{g.first + r.Intn(g.nchan)}
+		}
+		for gi := range s.groups {
+			s.groups[gi].lost = map[int]bool{}
+		}
+	}
 	return s
 }
 
@@ -526,6 +541,9 @@ func (s *vAbScript) stats(c *vCase) {
 	}
 }
 
+// vAbForceUnwrap makes every generated script an unwrapping one (used by C12's device-path cases).
+var vAbForceUnwrap bool
+
 func vRunAbaco(c *vCase) {
 	s := vGenAbScript(c)
 	c.Describe("%s", s.String())
@@ -568,6 +586,9 @@ func vRunAbacoOnce(c *vCase, s *vAbScript, rep int) {
 		return
 	}
 	as.unwrapOpts = AbacoUnwrapOptions{RescaleRaw: s.rescale}
+	if s.unwrap {
+		as.unwrapOpts = s.uopts
+	}
 	run := &vAbRun{s: s, nextIdx: make([]int, len(s.groups)), delivered: make([][]int, len(s.groups)),
 		calls: make([]int, s.nprod), starts: make([]int, s.nprod), stops: make([]int, s.nprod)}
 	for gi := range run.nextIdx {
@@ -746,6 +767,21 @@ func vCheckAbaco(c *vCase, s *vAbScript, run *vAbRun, tap *vAbTap, stalled bool,
 	fillerOut := 0
 	for ci, ch := range chans {
 		pos := 0
+		var unwrapped []RawType
+		if s.unwrap {
+			// the channel's whole emitted stream through one reference unwrapper configured as the group's
+			raw := make([]RawType, total)
+			for k := range raw {
+				raw[k] = RawType(vAbVal(ch.ch, N0*s.fpp+k))
+			}
+			inv := false
+			for _, ic := range s.uopts.InvertChan {
+				inv = inv || ic == ch.ch
+			}
+			ref := NewPhaseUnwrapper(abacoFractionBits, abacoBitsToDrop, true, s.uopts.calcBiasLevel(), s.uopts.ResetAfter, s.uopts.PulseSign, inv)
+			ref.UnwrapInPlace(&raw)
+			unwrapped = raw
+		}
 		for bi, b := range blocks {
 			for i, v := range b.data[ci] {
 				frame := N0*s.fpp + pos
@@ -765,6 +801,15 @@ func vCheckAbaco(c *vCase, s *vAbScript, run *vAbRun, tap *vAbTap, stalled bool,
 				want := vAbVal(ch.ch, frame)
 				if s.rescale {
 					want >>= 4
+				}
+				if s.unwrap {
+					if pos-1 < len(unwrapped) && v != unwrapped[pos-1] {
+						c.Violate("c12:device-path-abaco", "channel %d (group first=%d, %d channels): block %d sample %d (stream position %d) is %d; one unwrapper run over the channel's whole stream (options %+v) gives %d\n%s",
+							ch.ch, s.groups[ch.gi].first, s.groups[ch.gi].nchan, bi, i, pos-1, v, s.uopts, unwrapped[pos-1], s)
+						return
+					}
+					c.Cov("samples_checked_unwrapped", 1)
+					continue
 				}
 				if uint16(v) != want {
 					// what does the observed value correspond to?
